@@ -55,9 +55,11 @@ def _eq(a, b):
     return np.shape(a) == np.shape(b) and bool(np.all(np.asarray(a) == np.asarray(b)))
 
 
-def rv_case(tools, kinds, dtype_name, B, bs_mode, meta, outkind, ragged=False):
-    """-> None or dict(what, input)"""
-    inp = dict(part='rv', kinds=kinds, dtype=dtype_name, B=B, bs_mode=bs_mode, meta=meta, outkind=outkind, ragged=ragged)
+def rv_case(tools, kinds, dtype_name, B, bs_mode, meta, outkind, ragged=False, container='auto', prior=None):
+    """-> None or dict(what, input).  container: how the constants mask is handed to vectorize ('auto' = list or None,
+    'list', 'tuple'); prior: kinds word of an EARLIER call made on the same vectorised callable (same declared constants)."""
+    inp = dict(part='rv', kinds=kinds, dtype=dtype_name, B=B, bs_mode=bs_mode, meta=meta, outkind=outkind, ragged=ragged,
+               container=container, prior=prior)
     ins = [_mk_input(k, p, B) for p, k in enumerate(kinds)]
     arr_pos = [p for p, k in enumerate(kinds) if k in 'AM']
     if ragged and len(arr_pos) >= 2:
@@ -82,9 +84,14 @@ def rv_case(tools, kinds, dtype_name, B, bs_mode, meta, outkind, ragged=False):
     lens = [len(ins[p]) for p in arr_pos] + ([bs] if bs is not None else [])
     expect_raise = len(set(lens)) > 1
     Bexp = lens[0] if lens else 1
+    mask = (consts if consts else None) if container == 'auto' else (list(consts) if container == 'list' else tuple(consts))
+    mask0 = None if mask is None else list(mask)
     try:
         with native.time_limit(10):
-            f = tools.vectorize(op, constants=consts if consts else None, dtype=dtype)
+            f = tools.vectorize(op, constants=mask, dtype=dtype)
+            if prior is not None:
+                f(*[_mk_input(k, p, B) for p, k in enumerate(prior)], **dict(kwargs, meta=dict(mobj)) if meta else kwargs)
+                del calls[:]
             res = f(*ins, **kwargs)
     except ValueError as e:
         return None if expect_raise else dict(what='ValueError although all lengths agree: %s' % str(e)[:60], input=inp)
@@ -92,6 +99,8 @@ def rv_case(tools, kinds, dtype_name, B, bs_mode, meta, outkind, ragged=False):
         return dict(what='%s: %s' % (type(e).__name__, str(e)[:80]), input=inp)
     if expect_raise:
         return dict(what='no ValueError although lengths disagree (%s)' % lens, input=inp)
+    if mask0 is not None and (type(mask) not in (list, tuple) or list(mask) != mask0):
+        return dict(what="constants: the caller's mask %r was modified to %r" % (mask0, mask), input=inp)
     if not isinstance(res, np.ndarray):
         return dict(what='result is not an array', input=inp)
     if len(res) != Bexp:
@@ -140,6 +149,24 @@ def rv_cases(tier):
                                 yield kinds, dtype_name, B, bs_mode, meta, outkind, False
                     if narr >= 2:
                         yield kinds, dtype_name, B, 'absent', True, 'scalar', True
+    # the mask object bound by vectorize: list / tuple, and REUSE of one vectorised callable with another pattern of scalars / arrays
+    n = 0
+    for k in range(0, 4):
+        words = [''.join(w) for w in itertools.product(KINDS, repeat=k)]
+        for kinds in words:
+            for container in ('list', 'tuple'):
+                yield kinds, 'none', 2, 'absent', False, 'scalar', False, container, None
+        for prior in words:
+            cp = [c in 'Cc' for c in prior]
+            for kinds in words:
+                if [c in 'Cc' for c in kinds] != cp:
+                    continue
+                n += 1
+                if k == 3 and tier == 'quick' and n % 9:
+                    continue
+                for container in ('list', 'tuple'):
+                    for B in (1, 3):
+                        yield kinds, 'none', B, 'absent', (n % 2 == 0), 'scalar', False, container, prior
 
 
 def run_rv(tier, first_failure_only=True):
@@ -149,14 +176,15 @@ def run_rv(tier, first_failure_only=True):
     for c in rv_cases(tier):
         cases += 1
         kinds, B = c[0], c[2]
-        nontrivial += 1 if (B > 1 and any(x in 'AM' for x in kinds) and any(x in 'CcSZ' for x in kinds)) else 0
+        nontrivial += 1 if (B > 1 and any(x in 'AM' for x in kinds) and (any(x in 'CcSZ' for x in kinds) or len(c) > 8 and c[8])) else 0
         f = rv_case(tools, *c)
         if f:
             f['signature'] = 'c18-rv:' + f['what'].split(':')[0][:50]
             failures.append(f)
             if first_failure_only:
                 break
-    return dict(name='vectorize-grid', bound='arity<=3 over kinds %s, dtype None/float/False, batch 1..3, batch_size absent/equal/off-by-one, meta yes/no' % KINDS,
+    return dict(name='vectorize-grid', bound='arity<=3 over kinds %s, dtype None/float/False, batch 1..3, batch_size absent/equal/off-by-one, meta yes/no; '
+                'mask as list/tuple; two consecutive calls of one vectorised callable over all pairs of kind words with the same declared constants' % KINDS,
                 rule='non-trivial = batch > 1 with at least one array and one constant/scalar input', cases=cases, nontrivial=nontrivial, failures=failures)
 
 
@@ -230,9 +258,36 @@ def _ext_alone(tools):
                 return None if int(r2[0]) == want else 'seed: not deterministic'
             yield 'seed-%d-%s' % (sd, idx), seedcase
 
+    # the way the executor calls a vectorised external operation in batch k: full run metadata, one generator per batch
+    for k in (0, 1, 2, 3):
+        def batchcase(k=k):
+            BATCH = 4
+            op = tools.vectorize(E('echo {seed} {index_in_batch} {batch_index} {0}', process_result='int64'))
+            x = np.arange(BATCH) + 100
+            rs = np.random.RandomState(1000 + k)
+            rs.rand(2)
+            word = rs.get_state()[1][0]
+            meta = dict(batch_index=k, submission_index=k + 1, master_seed=123, model_name='m')
+            g = op(x, meta=meta, random_state=rs, batch_size=BATCH)
+            if g.shape != (BATCH, 4) or not np.array_equal(g[:, 1], np.arange(BATCH)) or not np.array_equal(g[:, 3], x) or not np.all(g[:, 2] == k):
+                return 'batch: substitution wrong in batch %d: %r' % (k, g.tolist())
+            want = [sub_seed_oracle(word, j) for j in range(BATCH)]
+            if [int(v) for v in g[:, 0]] != want:
+                return 'seed: batch %d rows got seeds %r, the sub-seeds of the generator word are %r' % (k, g[:, 0].tolist(), want)
+            return None if len(set(g[:, 0].tolist())) == BATCH else 'seed: batch %d rows share a seed' % k
+        yield 'seed-batch-%d' % k, batchcase
 
-def _model_case(elfi, tools, bsz, seed, vectorized_inner=True):
-    """external op under vectorize inside a model: rows = [prior_j, seed_j, j]"""
+        def rowless(k=k):
+            rs = np.random.RandomState(50 + k)
+            word = rs.get_state()[1][0]
+            r = E('echo {seed}', process_result='int64')(random_state=rs, meta=dict(batch_index=k, submission_index=0, master_seed=5, model_name='m'))
+            return None if int(r[0]) == sub_seed_oracle(word, 0) else 'seed: without a row index in batch %d the seed is not sub-seed 0 of the generator' % k
+        yield 'seed-norow-batch-%d' % k, rowless
+
+
+def _model_case(elfi, tools, bsz, seed, batch_index=0):
+    """external op under vectorize inside a model, batch `batch_index` computed the way ElfiModel.generate computes batch 0:
+    rows = [prior_j, seed_j, j]"""
     m = elfi.ElfiModel()
     p = elfi.Prior('uniform', 0, 1, model=m, name='p')
     ext = tools.external_operation('echo {0} {seed} {index_in_batch}', process_result='float64')
@@ -243,15 +298,21 @@ def _model_case(elfi, tools, bsz, seed, vectorized_inner=True):
         return ext(*a, **kw)
     sim = elfi.Simulator(tools.vectorize(wrap), p, model=m, name='s')
     sim.uses_meta = True
-    out = m.generate(bsz, outputs=['p', 's'], seed=seed)
-    return out, rec
+    if batch_index == 0:
+        return m.generate(bsz, outputs=['p', 's'], seed=seed), rec
+    from elfi.model.elfi_model import ComputationContext
+    import elfi.client
+    client = elfi.client.get_client()
+    context = ComputationContext(bsz, seed=seed)
+    loaded = client.load_data(client.compile(m.source_net, ['p', 's']), context, batch_index=batch_index)
+    return client.compute(loaded), rec
 
 
 def _ext_model(elfi, tools):
-    for bsz in (1, 2, 3):
-        for seed in (1, 2, 3):
-            def case(bsz=bsz, seed=seed):
-                out, rec = _model_case(elfi, tools, bsz, seed)
+    for bsz, seed, bi in [(b, sd, 0) for b in (1, 2, 3) for sd in (1, 2, 3)] + [(b, 1, k) for b in (2, 4) for k in (1, 2, 3)]:
+        if True:
+            def case(bsz=bsz, seed=seed, bi=bi):
+                out, rec = _model_case(elfi, tools, bsz, seed, bi)
                 s, p = np.asarray(out['s']), np.asarray(out['p']).reshape(-1)
                 if s.shape != (bsz, 3):
                     return 'model: output shape %s for batch_size %d' % (s.shape, bsz)
@@ -267,14 +328,14 @@ def _ext_model(elfi, tools):
                         return 'model seed: row %d got %d, sub-seed of the generator word is %d' % (j, int(s[j, 1]), sub_seed_oracle(word, j))
                 if len(set(int(v) for v in s[:, 1])) != bsz:
                     return 'model seed: seeds of the rows of one batch are not distinct'
-                out2, _ = _model_case(elfi, tools, bsz, seed)
+                out2, _ = _model_case(elfi, tools, bsz, seed, bi)
                 if not np.array_equal(np.asarray(out2['s']), s):
                     return 'model seed: not deterministic in the model seed'
-                out3, _ = _model_case(elfi, tools, bsz, seed + 100)
+                out3, _ = _model_case(elfi, tools, bsz, seed + 100, bi)
                 if np.array_equal(np.asarray(out3['s'])[:, 1], s[:, 1]):
                     return 'model seed: does not depend on the model seed'
                 return None
-            yield 'model-b%d-s%d' % (bsz, seed), case
+            yield 'model-b%d-s%d-batch%d' % (bsz, seed, bi), case
 
     def doc_example():
         m = elfi.ElfiModel()
@@ -305,9 +366,9 @@ def _run_thunk(th):
 
 
 def run_ext(tier, first_failure_only=True):
-    res = {'alone': dict(name='external-echo', bound='20 echo-style templates / option combinations, seeds {0,7} x index {None,0,1,2}', cases=0, nontrivial=0, failures=[],
+    res = {'alone': dict(name='external-echo', bound='echo-style templates / option combinations, seeds {0,7} x index {None,0,1,2}, vectorised batches 0..3 of 4 rows with the full run metadata', cases=0, nontrivial=0, failures=[],
                          rule='non-trivial = the seed cases (used generator, row index given)'),
-           'model': dict(name='external-in-model', bound='model Prior -> Simulator(vectorize(external_operation)), batch_size 1..3, seeds 1..3, + docstring example',
+           'model': dict(name='external-in-model', bound='model Prior -> Simulator(vectorize(external_operation)), batch_size 1..3 x seeds 1..3 in batch 0, batch_size 2,4 in batches 1..3, + docstring example',
                          cases=0, nontrivial=0, failures=[], rule='non-trivial = batch_size > 1')}
     for grp, name, th in ext_cases():
         r = res[grp]
@@ -338,7 +399,8 @@ def replay_input(inp):
     if 'part' not in inp and isinstance(inp.get('input'), dict):      # a bounded failure record {what, input, signature}
         inp = inp['input']
     if inp.get('part') == 'rv':
-        return rv_case(_tools(), inp['kinds'], inp['dtype'], inp['B'], inp['bs_mode'], inp['meta'], inp['outkind'], inp.get('ragged', False)) is None
+        return rv_case(_tools(), inp['kinds'], inp['dtype'], inp['B'], inp['bs_mode'], inp['meta'], inp['outkind'], inp.get('ragged', False),
+                       inp.get('container', 'auto'), inp.get('prior')) is None
     for grp, name, th in ext_cases():
         if name == inp.get('case'):
             return _run_thunk(th) is None
